@@ -15,6 +15,7 @@
 #define EVENTOPTIONS_H_730367862613
 
 #include "internal/typeutil_i.h"
+#include "internal/verif_i.h"
 
 #include <atomic>
 #include <condition_variable>
